@@ -909,6 +909,15 @@ func scripted(cfgIdx int) []*history {
 		ops3 = append(ops3, blk(0)...)
 	}
 	add("witness:partial_undelegate_drops_delegator", 1, ops3...)
+	// the rounding over-credit through REAL blocks: validator 0 signs and proposes four blocks (power = snap = 4),
+	// then 6ubtc of fees: validator 3 + delegator 2 + 2
+	ops4 := []*op{{Kind: "delegate", Who: 0, Amts: []coin{c(0, 1000), c(1, 1000)}}}
+	for i := 0; i < 4; i++ {
+		ops4 = append(ops4, blk(0)...)
+	}
+	ops4 = append(ops4, &op{Kind: "fees", Amts: []coin{c(1, 6)}},
+		&op{Kind: "begin", Dt: 5, Commit: []int64{0, 1}, Signed: []bool{true, true}, Proposer: 0}, &op{Kind: "end"})
+	add("witness:over_credit_through_blocks", 1, ops4...)
 	// stake caps summing to 1: the delegators are credited 4 out of a pool allocation of 3
 	add("witness:credited_exceeds_allocation", 1,
 		&op{Kind: "delegate", Who: 0, Amts: []coin{c(0, 1000), c(1, 1000)}},
